@@ -15,7 +15,7 @@ from props.common import scale, depth_of, schema_tags, same
 from props.c01 import gen_cases
 
 THEOREMS = ["c03_accept", "c03_skip", "c03_read_extend", "c03_prefix", "c03_bad_index"]
-TARGETS = ["Properties.Tables", "Properties.C03"]
+TARGETS = ["Properties.TablesCodec", "Properties.C03"]
 
 
 # ------------------------------------------------------------------ spec-side encoder with free block partitions
